@@ -99,3 +99,142 @@ class parse_tl_num(Contract):
 
     def build(self, i):
         return (bytes.fromhex(i['buf']['hex']), i['offset']), {}
+
+
+@contract
+class pack_uint_bytes(Contract):
+    fn = tlv_var.pack_uint_bytes
+    props = ('C08', 'C09', 'C19')
+    exact_raises = True
+    doc = 'big-endian NonNegativeInteger in the smallest legal width 1/2/4/8'
+
+    def setup(self, cx):
+        return dict(val=cx.run.input_int('val'))
+
+    raises = {struct.error: lambda cx, val: Or(val < 0, val >= M64)}
+
+    def post(self, cx, result, val):
+        w = uint_width(val)
+        h = cx.heap
+        return {'is_bytes': isinstance(result, View) and result.kind == 'bytes',
+                'width': Eq(result.length, w),
+                'value': Or(*[And(w == k, be(h, result, 0, k) == val) for k in (1, 2, 4, 8)])}
+
+    def result(self, cx, val):
+        w = cx.run.fresh_int('uw')
+        cx.run.assume(w == uint_width(val))
+        out = cx.run.alloc(w, 'bytes', cx.run.fresh_row('uint'), False)
+        cx.run.assume(bytes_in_range(cx.heap, out, 0, 8))
+        return out
+
+    def build(self, i):
+        return (i['val'],), {}
+
+
+def _hdr(cx, wire):
+    """(typ, tn, size, sn) of the element starting at wire[0], read from the entry heap"""
+    h = cx.old_heap
+    tn = need_at(h, wire, 0)
+    return tlval_at(h, wire, 0), tn, tlval_at(h, wire, tn), need_at(h, wire, tn)
+
+
+@contract
+class parse_and_check_tl(Contract):
+    fn = tlv_var.parse_and_check_tl
+    props = ('C01', 'C06', 'C07', 'C16')
+    exact_raises = True
+    doc = 'outer element check: Type as expected, Length == remaining bytes; returns the Value as a view of wire'
+
+    def setup(self, cx):
+        return dict(wire=cx.run.input_buf('wire', 'bytes'), expected_type=cx.run.input_int('expected_type'))
+
+    def pre(self, cx, wire, expected_type):
+        return isinstance(wire, View)
+
+    @staticmethod
+    def _fits(cx, wire):
+        typ, tn, size, sn = _hdr(cx, wire)
+        L = zint(wire.length)
+        return And(L > 0, tn < L, tn + sn <= L)
+
+    raises = {
+        ValueError: lambda cx, wire, expected_type: And(parse_and_check_tl._fits(cx, wire),
+                                                         _hdr(cx, wire)[0] != zint(expected_type)),
+        IndexError: lambda cx, wire, expected_type: (lambda typ, tn, size, sn, L: Or(
+            L == 0, tn == L,
+            And(parse_and_check_tl._fits(cx, wire), typ == zint(expected_type), L != tn + sn + size)))(*_hdr(cx, wire), zint(wire.length)),
+        struct.error: lambda cx, wire, expected_type: (lambda typ, tn, size, sn, L: Or(
+            And(L > 0, tn > L), And(tn < L, tn + sn > L)))(*_hdr(cx, wire), zint(wire.length)),
+    }
+
+    def post(self, cx, result, wire, expected_type):
+        typ, tn, size, sn = _hdr(cx, wire)
+        ok = isinstance(result, View) and result.kind == 'memoryview'
+        if not ok:
+            return {'is_memoryview': False}
+        return {'same_cell': Eq(result.cell, wire.cell),
+                'starts_after_header': Eq(result.start, wire.start + tn + sn),
+                'length_is_declared': Eq(result.length, size),
+                'ends_at_wire_end': Eq(result.start + result.length, wire.start + wire.length),
+                'type': typ == zint(expected_type)}
+
+    def result(self, cx, wire, expected_type):
+        cx.run.assume(bytes_in_range(cx.heap, wire, 0, 18))
+        typ, tn, size, sn = _hdr(cx, wire)
+        st, ln = cx.run.fresh_int('vstart'), cx.run.fresh_int('vlen')
+        cx.run.assume(And(st == tn + sn, ln == size))
+        return View(wire.cell, simp(wire.start + st), ln, 'memoryview', wire.writable)
+
+    def build(self, i):
+        return (bytes.fromhex(i['wire']['hex']), i['expected_type']), {}
+
+
+@contract
+class shrink_length(Contract):
+    fn = tlv_var.shrink_length
+    props = ('C01', 'C02', 'C16')
+    doc = ('for a library-produced element (shortest-form T and L, exact length) and 0 < val <= L: the result is a '
+           'well-formed element of the same type, length L - val, same leading value bytes, for every pair of length widths')
+
+    def setup(self, cx):
+        return dict(wire=cx.run.input_buf('wire', 'bytearray'), val=cx.run.input_int('val'))
+
+    def pre(self, cx, wire, val):
+        if not (isinstance(wire, View) and wire.writable):
+            return False
+        typ, tn, size, sn = _hdr(cx, wire)
+        L = zint(wire.length)
+        return And(L >= 2, tn == tlsize(typ), sn == tlsize(size), L == tn + sn + size, zint(val) > 0, zint(val) <= size,
+                   bytes_in_range(cx.old_heap, wire, 0, 18))
+
+    def post(self, cx, result, wire, val):
+        typ, tn, size, sn = _hdr(cx, wire)
+        rs = size - zint(val)
+        h = cx.heap
+        if not (isinstance(result, View) and result.kind == 'memoryview'):
+            return {'is_memoryview': False}
+        return {'same_cell': Eq(result.cell, wire.cell),
+                'type_kept_shortest': tlenc_at(h, result, 0, typ),
+                'length_rewritten_shortest': tlenc_at(h, result, tn, rs),
+                'total_length_exact': Eq(result.length, tn + tlsize(rs) + rs),
+                'value_starts_where_it_was': Eq(result.start + tn + tlsize(rs), wire.start + tn + sn),
+                'value_bytes_untouched': cx.frame(wire, 0, tn + sn)}
+
+    def result(self, cx, wire, val):
+        typ, tn, size, sn = _hdr(cx, wire)
+        rs = size - zint(val)
+        d = cx.run.fresh_int('shrink_d')
+        cx.run.assume(d == sn - tlsize(rs))
+        cx.run.havoc_range(wire, 0, tn + sn, 'shrunk_hdr')
+        cx.run.assume(bytes_in_range(cx.heap, wire, 0, 18))
+        ln = cx.run.fresh_int('shrunk_len')
+        cx.run.assume(ln == tn + tlsize(rs) + rs)
+        return View(wire.cell, simp(wire.start + d), ln, 'memoryview', True)
+
+    def post_assumed(self, cx, result, wire, val):
+        typ, tn, size, sn = _hdr(cx, wire)
+        rs = size - zint(val)
+        return {'t': tlenc_at(cx.heap, result, 0, typ), 'l': tlenc_at(cx.heap, result, tn, rs)}
+
+    def build(self, i):
+        return (bytearray.fromhex(i['wire']['hex']), i['val']), {}
